@@ -368,7 +368,10 @@ void Transportation1dSolver::checkSolutionOptimal(const Solution &alloc) const {
         snk = nxt - 1;
         break;
       }
-      gain += gainRight[nxt];
+      if (nxt + 1 < nbSinks()) {
+        // The last sink cannot send anything further right
+        gain += gainRight[nxt];
+      }
     }
   }
 
@@ -386,7 +389,10 @@ void Transportation1dSolver::checkSolutionOptimal(const Solution &alloc) const {
         snk = nxt + 1;
         break;
       }
-      gain += gainLeft[nxt];
+      if (nxt >= 1) {
+        // The first sink cannot send anything further left
+        gain += gainLeft[nxt];
+      }
     }
   }
 }
